@@ -35,9 +35,42 @@ BACKSLASH_KEYS: dict[str, Any] = {
     "q\\\\n": "exact-2bs", "q\\n": "decoy-2bs",
 }
 
+# Characters Python calls non-printable (a serialiser may want to escape them): astral format /
+# tag / private-use / unassigned code points, BMP invisibles, C1 controls, noncharacters and
+# lone surrogates.  All are accepted raw by the lexer.
+INVISIBLES: dict[str, str] = {
+    "tag-flag": "\U0001F3F4\U000E0067\U000E0062\U000E0065\U000E006E\U000E0067\U000E007F",
+    "lang-tag": "a\U000E0001b\U000E0020", "pua-15": "\U000F0000", "pua-16": "x\U0010FFFD",
+    "music-format": "\U0001D173x\U0001D17A", "variation-selector": "v\U000E0100", "unassigned": "u\U00050000",
+    "zero-width": "z\u200b\u200c\u200d\u200e\u200f", "bidi": "\u202a\u202b\u202c\u202d\u202e",
+    "word-joiner": "\u2060\u2061\u2064\ufeff", "soft-hyphen": "s\u00ad\u061c\u180e",
+    "line-sep": "l\u2028\u2029\u0085", "c1": "\u0080\u009f\u007f", "nonchar": "n\ufffe\uffff",
+    "surrogate-hi": "\ud800", "surrogate-lo": "\udfff x",
+}
+
+
+def _misparse(s: str) -> str:
+    """What `\\u` + 5 or 6 hex digits would be read back as: 4 digits + literal digits."""
+    out = []
+    for ch in s:
+        if ord(ch) > 0xFFFF:
+            h = f"{ord(ch):04x}"
+            out.append(chr(int(h[:4], 16)) + h[4:])
+        else:
+            out.append(ch)
+    return "".join(out)
+
+
+INVISIBLE_KEYS: dict[str, Any] = {}
+for _n, _v in INVISIBLES.items():
+    INVISIBLE_KEYS["k" + _v] = "found-" + _n
+    if _misparse(_v) != _v:
+        INVISIBLE_KEYS["k" + _misparse(_v)] = "decoy-" + _n
+
 DATA_A: dict[str, Any] = {
     "a": {"b c": {"d": [{"e": 1}, {"e": 2}]}, "b": [1, 2, 3], "x": "xx", "k": "b", "first": "F",
-          **BACKSLASH_KEYS},
+          **BACKSLASH_KEYS, **INVISIBLE_KEYS},
+    **{"r" + v: "root-" + n for n, v in INVISIBLES.items() if n in ("lang-tag", "zero-width")},
     "C:\\temp\\new": "exact-root", "C:\temp\new": "decoy-root",
     "a b": "AB",
     "e": {"f": 0, "g": "b", **BACKSLASH_KEYS},
@@ -71,7 +104,8 @@ def random_data(rng: random.Random) -> dict[str, Any]:
         if rng.random() < 0.7:
             d[k] = rng.choice([True, False, None, 0, ""])
     d["n"] = rng.choice([0, 1, 2, 3, 4, None, "3"])
-    d["a"] = rng.choice([DATA_A["a"], DATA_A["a"], DATA_B["a"], {"b": [3, 2, 1], "k": "b", "x": 1, **BACKSLASH_KEYS},
+    d["a"] = rng.choice([DATA_A["a"], DATA_A["a"], DATA_B["a"],
+                         {"b": [3, 2, 1], "k": "b", "x": 1, **BACKSLASH_KEYS, **INVISIBLE_KEYS},
                          None, "str"])
     d["e"] = rng.choice([DATA_A["e"], DATA_B["e"], {"f": 1, "g": "k", **BACKSLASH_KEYS}, None])
     d["items"] = rng.choice([DATA_A["items"], [], [{"x": 2, "t": "b"}, {"x": 2, "t": "a", "f": 1}], None])
@@ -95,6 +129,7 @@ PARTIALS: dict[str, str] = {
     "mid": "{% extends 'base' %}{% block b1 %}mid({{ block.super }}){% endblock b1 %}",
     "reqbase": "R[{% block rq required %}{% endblock %}]",
     "cyc": "{% cycle 'x', 'y' %}{% cycle 'g': 1, 2 %}{% cycle s, n %}",
+    "cyc2": "{% cycle \"x\", \"\\u0079\" %}{% cycle g: 1e0, 2 %}{% cycle ['s'], n, %}",
 }
 
 # ---------------------------------------------------------------------------
@@ -177,6 +212,15 @@ PRIMS: list[tuple[str, str, str]] = [
     (r"'C:\\temp\\new'", "str-backslash-escape-like", "any"), (r"a[ 'a\\tb' ].size", "path-backslash-segment", "any num"),
 ]
 
+for _n, _v in INVISIBLES.items():
+    _q = '"' if _n in ("pua-15", "bidi", "c1") else "'"
+    PRIMS.append((f"{_q}x{_v}y{_q}", f"str-invisible-{_n}", "any"))
+    PRIMS.append((f"a[{_q}k{_v}{_q}]", f"path-invisible-{_n}", "any"))
+PRIMS.append(("'p${s}" + INVISIBLES["tag-flag"] + "q${n}" + INVISIBLES["zero-width"] + "'", "tstr-invisible", "any"))
+PRIMS.append(('"' + INVISIBLES["pua-16"] + "${s}'" + INVISIBLES["surrogate-hi"] + '"', "tstr-invisible", "any"))
+PRIMS.append(("['r" + INVISIBLES["lang-tag"] + "']", "path-invisible-root", "any"))
+PRIMS.append(('["r' + INVISIBLES["zero-width"] + '"].size', "path-invisible-root", "any num"))
+
 _NOT_IN_LIQUID_LINE: set[str] = set()  # primitives containing a literal newline (none above)
 
 
@@ -240,6 +284,13 @@ SITES_ANY: list[tuple[str, str]] = [
     ("{{ {}, {} | join: '-' }}", "array-literal"),
     ("{% for i in {}, 2 %}{{ i }}{% endfor %}", "for-array-literal"),
     ("{% for i in 2, {} %}{{ i }};{% endfor %}", "for-array-literal-second"),
+    ("{% liquid\nfor i in 2, {}\n  echo i\nendfor %}", "liquid-for-array-literal"),
+    ("{% liquid\nfor i in {}\n  echo i\n  echo ';'\nendfor\n%}", "liquid-for-iter"),
+    ("{% liquid\n  if {} == s or {}\n    echo 'T'\n  else\n    echo 'F'\n  endif\n%}", "liquid-if"),
+    ("{% liquid\ncycle {}, 'b'\ncycle {}, 'b'\n%}", "liquid-cycle"),
+    ("{% liquid\ncase {}\nwhen 3, {}\n  echo 'a'\nelse\n  echo 'b'\nendcase %}", "liquid-case-when"),
+    ("{% liquid\nrender 'p', x: {}\ninclude 'p' with {} as y\n%}", "liquid-render-include"),
+    ("{% liquid\necho s | append: {} | size\nassign v = z | default: {}, allow_false: true\necho v %}", "liquid-filter-arg"),
     # single-element array literals (a trailing comma is what makes them arrays)
     ("{{ {}, | json }}", "array-literal-single"),
     ("{% assign v = {}, %}[{{ v | first }}|{{ v | size }}]", "assign-array-literal-single"),
@@ -252,6 +303,8 @@ SITES_NUM: list[tuple[str, str]] = [
     ("{% for i in arr reversed limit: {} offset: {} %}{{ i }}{% endfor %}", "for-limit-offset-reversed"),
     ("{% tablerow i in arr cols: {} %}{{ i }}{% endtablerow %}", "tablerow-cols"),
     ("{% tablerow i in arr limit: {} offset: {} %}{{ i }}{% endtablerow %}", "tablerow-limit-offset"),
+    ("{% liquid\nfor i in arr offset: {} limit: {}\n  echo i\nendfor %}", "liquid-for-limit-offset"),
+    ("{% liquid\ntablerow i in arr cols: {}\n  echo i\nendtablerow %}", "liquid-tablerow-cols"),
     ("{{ s | slice: {}, 2 }}", "filter-multi-arg-first"),
     ("{{ s | slice: 1, {} }}", "filter-multi-arg-second"),
 ]
@@ -331,6 +384,52 @@ WCS = ["", "-", "~", "+"]
 # ---------------------------------------------------------------------------
 # unit enumeration
 # ---------------------------------------------------------------------------
+
+
+# Several cycle tags of ONE group (equal items, equal name) spelled in ways str() normalises.
+# "cycle tags with the same items share one iterator": each program below must render the
+# same as its canonical twin (RESPELLED), and the same before and after str().
+_CYC_VARIANTS: list[tuple[str, list[str]]] = [
+    ("quotes", ["'a','b'", '"a","b"', "'a', \"b\""]),
+    ("int-spelling", ["100, 2", "1e2, 2", "1E+2, 2"]),
+    ("float-spelling", ["1.0, 2.5", "1.00, 2.50", "1.0e0, 25.0e-1"]),
+    ("nil-null", ["nil, 'x'", "null, 'x'"]),
+    ("escapes", ["'a', 'b'", "'\\u0061', \"\\u0062\""]),
+    ("whitespace", ["'a','b'", "  'a'  ,\t'b'  ", "'a',\n'b'"]),
+    ("trailing-comma", ["'a', 'b'", "'a', 'b',"]),
+    ("path-spelling", ["a.x, n", "a['x'], n", 'a["x"], [\'n\']']),
+    ("group-name-quotes", ["'g': 1, 2", "g: 1, 2", '"g": 1, 2']),
+    ("group-name-escape", ["'g': 'a', 'b'", "'\\u0067': \"a\", 'b'"]),
+    ("bool-range", ["true, (1..2)", "true , ( 1 .. 2 )"]),
+]
+CYCLE_SPELLINGS: list[tuple[str, str]] = []
+RESPELLED: list[tuple[str, str, str]] = []  # (feature, program, canonical twin)
+
+
+def _mk_cycle_programs() -> None:
+    for name, vs in _CYC_VARIANTS:
+        seq = [vs[k % len(vs)] for k in range(len(vs) + 1)]
+        flat = "".join(f"{{% cycle {v} %}}" for v in seq)
+        flat0 = "".join(f"{{% cycle {vs[0]} %}}" for _ in seq)
+        loop = "{% for i in (1..3) %}" + "".join(f"{{% cycle {v} %}}" for v in vs) + ";{% endfor %}"
+        loop0 = "{% for i in (1..3) %}" + "".join(f"{{% cycle {vs[0]} %}}" for _ in vs) + ";{% endfor %}"
+        liq = "{% liquid\n" + "".join(f"cycle {v}\n" for v in seq if "\n" not in v) + "%}"
+        liq0 = "{% liquid\n" + "".join(f"cycle {vs[0]}\n" for v in seq if "\n" not in v) + "%}"
+        for kind, prog, twin in (("flat", flat, flat0), ("loop", loop, loop0), ("liquid", liq, liq0)):
+            CYCLE_SPELLINGS.append((prog, f"cycle-spelling-{name}-{kind}"))
+            RESPELLED.append((f"cycle-spelling-{name}-{kind}", prog, twin))
+    # across partials sharing the cycle state
+    for prog, twin in (
+        ("{% cycle 'x', 'y' %}{% include 'cyc2' %}{% cycle 'x', 'y' %}{% include 'cyc2' %}",
+         "{% cycle 'x', 'y' %}{% include 'cyc' %}{% cycle 'x', 'y' %}{% include 'cyc' %}"),
+        ("{% for i in (1..2) %}{% include 'cyc2' %}{% cycle 'g': 1, 2 %}{% endfor %}",
+         "{% for i in (1..2) %}{% include 'cyc' %}{% cycle 'g': 1, 2 %}{% endfor %}"),
+    ):
+        CYCLE_SPELLINGS.append((prog, "cycle-spelling-partial"))
+        RESPELLED.append(("cycle-spelling-partial", prog, twin))
+
+
+_mk_cycle_programs()
 
 
 def _bool_trees() -> Iterator[tuple[str, str]]:
@@ -546,6 +645,8 @@ def _tag_units() -> Iterator[tuple[str, str]]:
     yield "{% macro m a b: 2 %}{{ a }}{{ b }}{% endmacro %}{% call m 1 2 %}{% call m b: 1, 2 %}{% call m, 1, %}", "macro-no-commas"
     yield "{% macro m a: nil, b: (1..2), c: 'x${s}', d: a.b[0], e: 1.5, f: true %}{{ a }}{{ b }}{{ c }}{{ d }}{{ e }}{{ f }}{% endmacro %}{% call m %}{% call m f: false, a: n %}", "macro-default-kinds"
     yield "{% macro m x %}{{ x }}{{ s }}{% include 'p' %}{% endmacro %}{% call m 1 %}", "macro-disabled-include"
+    for prog, feat in CYCLE_SPELLINGS:
+        yield prog, feat
     yield "{% cycle 'x', 'y' %}{% include 'cyc' %}{% cycle 'x', 'y' %}|{% cycle 'g': 1, 2 %}{% render 'cyc' %}{% cycle s, n %}", "cycle-group-shared-with-partial"
     # quoted names that are not identifiers
     yield "{% cycle 'a b': 1, 2 %}{% cycle 'a b': 1, 2 %}{% cycle \"c-d e\": 'x', 'y' %}", "cycle-name-with-space"
